@@ -21,8 +21,8 @@ from auditsim.log import Outcome
 
 PROP = "C01"
 TIERS = {
-    "quick": {"runs": 2600, "chunk": 20, "cap": 1300, "Nmax": 120, "R": 1500, "p_sampled": 0.12},
-    "thorough": {"budget_s": 1500, "chunk": 20, "cap": 3000, "Nmax": 400, "R": 12000, "p_sampled": 0.12},
+    "quick": {"runs": 6000, "chunk": 20, "cap": 3000, "Nmax": 120, "R": 1500, "p_sampled": 0.1, "deep": [(27, 3)]},
+    "thorough": {"budget_s": 1500, "chunk": 20, "cap": 6000, "Nmax": 400, "R": 12000, "p_sampled": 0.12, "deep": [(27, 3), (36, 4)]},
 }
 RULE = ("one run = one (test, estimator/bet, parameters) configuration from the documented ranges and one null "
         "population (dyadic grid, mean <= t, half with mean exactly t) or null law; exact kinds enumerate every "
@@ -41,7 +41,8 @@ COMPONENTS = {
     "stub": ["urn / null population", "draw-order scheduler"],
 }
 PROBES = ["null mean hit 0", "null mean > u", "alternative clipped at u", "test raised", "NaN reported",
-          "mean exactly t", "P(M<=v) == v attained (tight)", "some ordering rejects at 0.05"]
+          "mean exactly t", "P(M<=v) == v attained (tight)", "some ordering rejects at 0.05", "audit-like urn (N > 9)"]
+# (the probe "anticipation probe fired -> deep enumeration" must stay at zero on a correct tree; it is not listed)
 LEVELS = [0.001, 0.01, 0.05, 0.1, 0.2, 0.5]
 _bcache = {}
 
@@ -71,7 +72,47 @@ def generate(rng, tier):
     cfg = D.gen_config(rng, mode=mode)
     u, t = cfg["u"], cfg["t"]
     case = {"kind": kind, "cfg": cfg}
-    if kind == "exact-finite":
+    adaptive = cfg.get("estim") == "shrink_trunc" or cfg.get("bet") == "agrapa"
+    if adaptive and kind != "exact-iid":
+        # rules that learn from the sample are where a one-draw peek hides: give the learning something to use
+        if cfg.get("estim") == "shrink_trunc" and rng.chance(0.6):
+            cfg["kwargs"]["f"] = rng.pick([0.05, 0.1, 0.5, 1.0, 3.0])
+            cfg["kwargs"]["d"] = rng.pick([0.5, 1, 10, 100])
+    if kind == "exact-finite" and rng.chance(0.75 if adaptive else 0.35):
+        # audit-like urn: almost every value equal and just above t (an accurate CVR), a few small ones
+        # (overstatements), mean as close to t as the grid allows - larger N, still few distinct orderings
+        import math as _m
+        q = 64
+        for _ in range(60):
+            if rng.chance(0.5):
+                N, k = rng.pick([(27, 3), (18, 2), (20, 2), (24, 3), (36, 2), (40, 1), (16, 4), (9, 1), (12, 3)])
+            else:
+                k = rng.randint(1, 4)
+                N = rng.randint(k + 1, 44) if rng.chance(0.4) else rng.randint(min(44, 12 + 4 * (4 - k)), 44)
+            if _m.comb(N, k) > cfg_t["cap"]:
+                continue
+            lo = rng.pick([0, 0, 0, int(t * q) // 2])
+            budget = int(_m.floor(N * t * q + 1e-9)) - k * lo
+            hi = min(int(_m.floor(u * q + 1e-12)), budget // (N - k))
+            if hi <= lo:
+                continue
+            if rng.chance(0.3):
+                hi = max(lo + 1, hi - rng.randint(0, 3))
+            pop = [hi / q] * (N - k) + [lo / q] * k
+            rng.shuffle(pop)
+            break
+        else:
+            N = 6
+            pop, _e = D.gen_null_population(rng, N, u, t, bits=6, shape="binary")
+        case["shape"] = "audit-like"
+        case["deep"] = [list(x) for x in cfg_t["deep"]]
+        case["pop"] = pop
+        case["N"] = N
+        ls = {N}
+        for _ in range(2):
+            ls.add(rng.randint(max(1, N // 2), N))
+        case["lengths"] = sorted(ls)
+    elif kind == "exact-finite":
         for _ in range(40):
             N = rng.randint(1, 9)
             pop, exact = D.gen_null_population(rng, N, u, t, bits=6)
@@ -206,8 +247,36 @@ def execute(case):
                     out.probe("some ordering rejects at 0.05")
                 _check_exact(out, dist, total, cfg, mode, f"N={N}, sample length {n}, population {pop}")
         out.units["orderings"] += total
+        # adaptive search: a rule that lets draw j influence its own bet is where moderate, hard-to-see
+        # failures live.  A cheap anticipation probe selects such configurations for deep exact enumeration
+        # of audit-like urns; the verdict still comes only from the exact law.
+        if case.get("deep") and _anticipates(ns, cfg, N, pop):
+            out.probe("anticipation probe fired -> deep enumeration")
+            import math as _m
+            q = 64
+            for (dn, dk) in case["deep"]:
+                hi = min(int(_m.floor(cfg["u"] * q + 1e-12)), int(_m.floor(dn * cfg["t"] * q + 1e-9)) // (dn - dk))
+                if hi <= 0:
+                    continue
+                dpop = [hi / q] * (dn - dk) + [0.0] * dk
+                dt = D.make_test(ns, cfg, dn)
+                ddist = {}
+                for o in D.distinct_orderings(dpop, 10 ** 6)[0]:
+                    m = _observe(out, dt, o, st)
+                    out.units["draws"] += dn
+                    out.units["test_calls"] += 1
+                    if m is not None:
+                        ddist[m] = ddist.get(m, 0) + 1
+                out.units["orderings"] += sum(ddist.values())
+                out.ev("deep", [dn, dk, hi, len(ddist)])
+                if ddist:
+                    _check_exact(out, ddist, sum(ddist.values()), cfg, mode, f"deep urn N={dn}: {dn - dk} x {hi / q} + {dk} x 0")
+                if out.violations:
+                    break
         out.nontrivial = moved
-        out.shape(f"N={N} moved={moved} exact={abs(sum(pop) - N * cfg['t']) == 0}")
+        out.shape(f"N={min(N, 10)} moved={moved} exact={abs(sum(pop) - N * cfg['t']) == 0} {case.get('shape', '')}")
+        if case.get("shape") == "audit-like":
+            out.probe("audit-like urn (N > 9)")
         _probe_m(out, cfg, pop, N)
     elif kind == "exact-iid":
         law = case["law"]
@@ -294,6 +363,34 @@ def execute(case):
         if mode == "finite":
             _probe_m(out, cfg, case["pop"], case["N"])
     return out
+
+
+def _anticipates(ns, cfg, N, pop):
+    """does the alternative / bet applied to draw j change when only draw j changes?  (probe only - never a verdict)"""
+    import warnings
+    if len(pop) < 3:
+        return False
+    tst = D.make_test(ns, cfg, N)
+    fn = tst.estim if cfg["test"] == "ALPHA_MART" else (tst.bet if cfg["test"] == "BETTING_MART" else None)
+    if fn is None:
+        return False
+    x = np.array(sorted(pop, reverse=True), dtype=float)
+    try:
+        with warnings.catch_warnings():
+            warnings.simplefilter("ignore")
+            with np.errstate(all="ignore"):
+                a = np.asarray(fn(x), dtype=float)
+                if a.ndim == 0:
+                    return False
+                for j in (len(x) - 1, len(x) // 2, 2):
+                    y = x.copy()
+                    y[j] = 0.0 if x[j] != 0 else cfg["u"]
+                    b = np.asarray(fn(y), dtype=float)
+                    if not (a[j] == b[j] or (math.isnan(a[j]) and math.isnan(b[j]))):
+                        return True
+    except Exception:
+        return False
+    return False
 
 
 def _probe_m(out, cfg, pop, N):
